@@ -1,5 +1,6 @@
 SPECIFICATION Spec
 CONSTANTS
   Depth = 12
+  ForeignKinds <- AllForeignKinds
   KeepHist = TRUE
 INVARIANT EmitCase
